@@ -29,9 +29,10 @@ META = {
         'pero_ocr/layout_engines/naive_sorter.py:NaiveRegionSorter.sort_regions',
     ],
     'bounds': {
-        'quick': 'smart sorter: 0..3 regions (axis-aligned boxes with symbolic corners, x_min <= x_max, y_min <= y_max, coordinates in [0, 1000]), '
+        'quick': 'smart sorter: 0..2 regions with all four corners of every box symbolic (x_min <= x_max, y_min <= y_max, in [0, 1000]); 3 regions with '
+                 'one axis symbolic and the other taken from 4 concrete arrangements (staggered, identical, nested, zero extent; 6 in the thorough tier); '
                  'intersection parameter symbolic in (0,1); naive sorter: 0..3 regions, image width and width denominator symbolic integers',
-        'thorough': 'smart sorter: 4 regions; naive sorter: 4 regions; a 5-point concave polygon variant for 2 regions',
+        'thorough': 'smart sorter: 3 regions fully symbolic; 4 regions with three concrete boxes and one symbolic box; a concave 5-point variant; naive sorter: 4 regions',
     },
     'assumptions': [
         'numpy scalar division: x / 0 is +-inf or nan with a warning, never an exception (Python floats would raise: tracked per value)',
@@ -49,19 +50,27 @@ BUDGET = 400
 
 def tasks(tier):
     ts = []
-    nmax = 3 if tier == 'quick' else 4
-    for n in range(0, nmax + 1):
-        t = {'mode': 'smart', 'n': n}
-        if n >= 3:
-            t['split'] = 64 if n == 3 else 256
-        ts.append(t)
+    YP = [[[0, 10], [20, 30], [40, 50]], [[0, 30], [10, 40], [20, 50]], [[0, 10], [0, 10], [0, 10]], [[0, 50], [10, 20], [10, 20]],
+          [[5, 5], [0, 10], [20, 30]], [[0, 10], [10, 20], [5, 15]]]
+    for n in range(0, 3):
+        ts.append({'mode': 'smart', 'n': n})
+    # three (four) regions: one axis symbolic, the other from a set of concrete arrangements (stacked, staggered, identical,
+    # nested, zero height, touching); the fully symbolic 3-region space is the thorough tier
+    for yp in (YP if tier != 'quick' else YP[1:5]):
+        ts.append({'mode': 'smart', 'n': 3, 'ypat': yp, 'split': 32})
+        ts.append({'mode': 'smart', 'n': 3, 'xpat': yp, 'split': 32})
+    for n in range(0, 4):
         t = {'mode': 'naive', 'n': n}
         if n >= 3:
-            t['split'] = 32 if n == 3 else 128
+            t['split'] = 32
         ts.append(t)
     if tier != 'quick':
+        ts.append({'mode': 'smart', 'n': 3, 'split': 512})
         ts.append({'mode': 'smart', 'n': 2, 'concave': True})
-    ts.sort(key=lambda t: -t['n'])
+        ts.append({'mode': 'naive', 'n': 4, 'split': 128})
+        for yp in YP[:3]:
+            ts.append({'mode': 'smart', 'n': 4, 'ypat': yp + [[15, 45]], 'xpat': [[0, 10], [5, 15], [20, 30], [0, 30]], 'free': [3], 'split': 64})
+    ts.sort(key=lambda t: -(t['n'] * 10 + (5 if 'ypat' not in t and 'xpat' not in t else 0)))
     return ts
 
 
@@ -143,6 +152,11 @@ def run_task(task, patches=None):
         pl = L.PageLayout(id='p', page_size=(1000, 1000))
         for i in range(n):
             core.assume(z3.And(x0[i] >= 0, x0[i] <= x1[i], x1[i] <= 1000, y0[i] >= 0, y0[i] <= y1[i], y1[i] <= 1000))
+            free = task.get('free')
+            if task.get('ypat') and not (free and i in free and False):
+                core.assume(z3.And(y0[i] == task['ypat'][i][0], y1[i] == task['ypat'][i][1]))
+            if task.get('xpat') and not (free and i in free):
+                core.assume(z3.And(x0[i] == task['xpat'][i][0], x1[i] == task['xpat'][i][1]))
             pts = [S(x0[i]), S(y0[i]), S(x1[i]), S(y0[i]), S(x1[i]), S(y1[i]), S(x0[i]), S(y1[i])]
             if task.get('concave'):
                 # an L-shaped 5-point polygon inside the same bounding box
